@@ -78,8 +78,8 @@ STD_SPEC_STATUS = {
     "i64::div_euclid": _EUCLID + " (same harnesses; not used by the unchanged tree)",
     "i32::rem_euclid": _EUCLID.replace("(7, 12)", "(7)") + " (std_spec_euclid_i32_by_7; not used by the unchanged tree)",
     "i32::div_euclid": _EUCLID.replace("(7, 12)", "(7)") + " (std_spec_euclid_i32_by_7; not used by the unchanged tree)",
-    "i128::div_euclid": "assumed; divisor 10^9 only: the lowest 10^9 values proved by Kani (std_spec_euclid_i128_by_1e9_low), the main region did not finish in 15 min (unchecked)",
-    "i128::rem_euclid": "assumed; divisor 10^9 only: the lowest 10^9 values proved by Kani (std_spec_euclid_i128_by_1e9_low), the main region did not finish in 15 min (unchecked)",
+    "i128::div_euclid": "assumed; divisor 10^9 only: the lowest 10^9 values proved by Kani (std_spec_euclid_i128_by_1e9_low), the main region did not finish in 3 h of CBMC (unchecked)",
+    "i128::rem_euclid": "assumed; divisor 10^9 only: the lowest 10^9 values proved by Kani (std_spec_euclid_i128_by_1e9_low), the main region did not finish in 3 h of CBMC (unchecked)",
     "i64::abs": "Kani cross-check complete (std_spec_abs, thorough tier)",
     "i32::abs": "Kani cross-check complete (std_spec_abs; not used by the unchanged tree)",
     "i32::saturating_abs": "Kani cross-check complete (std_spec_abs)",
